@@ -238,6 +238,7 @@ def run(ctx, config='rel-all'):
             ctx.violation('O2', arena.short(roles['Allocator::grow']), 'in-place:missing', 'grow has no in-place extension path through the bumping function')
     copy_discipline(ctx, A, roles, specs, 'R3', 7)
     must_copy(ctx, A, 'R7')
+    stays_put_fits(ctx, A, 'R8')
     check_err_untouched(ctx, db, config, roles, 'R4')
     check_alloc_defaults(ctx, db, config, 'R5')
 
@@ -431,6 +432,39 @@ def must_copy(ctx, A, RULE='R7'):
         else:
             ctx.violation(RULE, fn, 'moved-without-copy', '%s can return %s, which is neither the block it was given nor the destination of a copy from it: the first min(old,new) bytes are not preserved' % (key, show(missing[0])[:100] if missing else 'nothing'), body.get('span'))
     ctx.floor(RULE, n, 2, 'reallocating entry points checked for the copy')
+
+
+def stays_put_fits(ctx, A, RULE='R8'):
+    """a block handed back *where it was* by a growing call must fit inside what the caller owned: the caller owns exactly
+    size(old) bytes at ptr (what lies behind them - alignment padding or a neighbour - is the arena's business, and after a
+    shrink that raised the alignment in place it is a live neighbour), so on every successful return of grow / realloc whose
+    pointer is the caller's own pointer, size(new) <= size(old) must follow from the facts of that path. (A block that moved is
+    covered by the bump obligations and R7.)"""
+    n = 0
+    for key, newsz in (('Allocator::grow', app('size', ('param', 4))), ('Alloc::realloc', ('param', 4)), ('Bump::grow', app('size', ('param', 4)))):
+        val = A.get(key)
+        if val is None:
+            continue
+        I, res, body = val
+        src_ptr = ('param', 2)
+        old_sz = app('size', ('param', 3))
+        fn = arena.short(body['id'])
+        n += 1
+        nalt = nsame = 0
+        for t, fs in arena.success_payloads(I, res):
+            for x in arena.phi_leaves(arena.pointer_of(t)):
+                nalt += 1
+                if x != src_ptr:
+                    continue
+                nsame += 1
+                P = prover.Prover(I, fs)
+                if P.vacuous() or P.le(newsz, old_sz):
+                    ctx.ok(RULE, '%s: returns the caller\'s pointer only where size(new) <= size(old)' % key, 'path facts')
+                else:
+                    ctx.violation(RULE, fn, 'grown-in-place-without-reserving', '%s can return the caller\'s own pointer on a path where size(new) <= size(old) is not entailed: the bytes behind the old block were never reserved for it (they may belong to a live neighbour)' % key, body.get('span'))
+        if not nsame:
+            ctx.ok(RULE, '%s: never returns the caller\'s pointer unchanged (%d return alternatives)' % (key, nalt), 'success payloads')
+    ctx.floor(RULE, n, 2, 'growing entry points checked for blocks returned in place')
 
 
 def is_fallible_alloc(I, callee):
